@@ -165,7 +165,19 @@ def strace_writes(logfile, cwd):
     return touched
 
 
-def one_run(sandbox, rid, kind, ir_path, argv_or_cfg, variant, trace=False):
+def stale_copy(src, dst):
+    """an older generation of the same definition: every file present with the same length but other bytes (letters change case)"""
+    for d, dirs, files in os.walk(src):
+        rel = os.path.relpath(d, src)
+        os.makedirs(os.path.join(dst, rel), exist_ok=True)
+        for n in files:
+            with open(os.path.join(d, n), "rb") as f:
+                data = f.read()
+            with open(os.path.join(dst, rel, n), "wb") as f:
+                f.write(data.swapcase())
+
+
+def one_run(sandbox, rid, kind, ir_path, argv_or_cfg, variant, trace=False, stale_from=None):
     """One generation in its own process.  Returns (tree snapshot, problems)"""
     box = os.path.join(sandbox, rid)
     shutil.rmtree(box, ignore_errors=True)
@@ -175,7 +187,9 @@ def one_run(sandbox, rid, kind, ir_path, argv_or_cfg, variant, trace=False):
     outname = ["out", "o", "generated-output-directory-with-a-long-name", "out.d"][variant % 4]
     outdir = os.path.join(box, "w", outname)
     os.makedirs(os.path.join(box, "w"))
-    if variant % 3 == 1:
+    if stale_from is not None:
+        stale_copy(stale_from, outdir)            # regeneration over an older generation of the same definition
+    elif variant % 3 == 1:
         os.makedirs(outdir)                       # an existing, empty directory is fresh too
     out_arg = outdir if variant % 2 == 0 else os.path.relpath(outdir, cwd)
     ir_arg = ir_path
@@ -326,7 +340,9 @@ def generate_group(gid, ir_doc, runs, case=None, trace_first=False):
     res = {"id": gid, "violations": [], "drift": [], "runs": 0, "files": 0}
     ref = None
     for n, (kind, conf) in enumerate(runs):
-        got, problems = one_run(sandbox, "r%d" % n, kind, ir_path, conf, variant=n + (len(gid) % 3), trace=(trace_first and n < 2))
+        # the last run of a group regenerates over a same-length, different-content copy of the reference tree
+        stale = ref[1] if (ref is not None and n == len(runs) - 1 and n >= 2) else None
+        got, problems = one_run(sandbox, "r%d" % n, kind, ir_path, conf, variant=n + (len(gid) % 3), trace=(trace_first and n < 2), stale_from=stale)
         res["runs"] += 1
         for k, msg in problems:
             res["violations"].append(("C20:%s:%s" % (k, kind), "%s run %d: %s" % (kind, n, msg), {"run": n, "kind": kind, "conf": conf}))
@@ -343,7 +359,7 @@ def generate_group(gid, ir_doc, runs, case=None, trace_first=False):
             continue
         if tree != ref[0]:
             diff = sorted(p for p in set(tree) | set(ref[0]) if tree.get(p) != ref[0].get(p))
-            what = "cli-vs-lib" if kind != ref[2] else "run-vs-run:" + kind
+            what = "regenerated-over-older-output" if stale is not None else "cli-vs-lib" if kind != ref[2] else "run-vs-run:" + kind
             fk = "Cargo.toml" if diff[0].endswith("Cargo.toml") else ("mod.rs" if diff[0].endswith(("mod.rs", "lib.rs")) else "module")
             detail = ""
             a, b = os.path.join(ref[1], diff[0]), os.path.join(outdir, diff[0])
